@@ -223,6 +223,17 @@ impl RealDisk {
         pool_dir.join(format!("img{idx}.list"))
     }
 
+    /// Every run gets its own path (`leap-seconds.<tag>.list` in the worker's directory), so that
+    /// state which the code under test might key by path cannot leak from one run into the next.
+    pub fn begin_run(&mut self, tag: u64) {
+        if self.current.is_some() {
+            let _ = std::fs::remove_file(&self.path);
+        }
+        let dir = self.path.parent().unwrap().to_path_buf();
+        self.path = dir.join(format!("leap-seconds.{tag}.list"));
+        self.current = None;
+    }
+
     /// Atomic replacement, the way a careful updater does it: new name, then rename over.
     pub fn install(&mut self, idx: usize) {
         if self.current == Some(idx) {
@@ -611,6 +622,19 @@ impl Sim {
         self.world.borrow().sim_path.clone()
     }
 
+    /// Gives the next run its own path (see `RealDisk::begin_run`).
+    pub fn begin_run(&mut self, tag: u64) {
+        let mut w = self.world.borrow_mut();
+        let w = &mut *w;
+        match w.real.as_mut() {
+            Some(r) => {
+                r.begin_run(tag);
+                w.sim_path = r.path.clone();
+            }
+            None => w.sim_path = PathBuf::from(format!("/simdisk/leap-seconds.{tag}.list")),
+        }
+    }
+
     /// Calibration: does `from_path` reach the file through the seam at all?
     pub fn calibrate(&mut self) -> Result<(), String> {
         {
@@ -644,82 +668,10 @@ impl Sim {
         self.world.borrow().v0_offsets_faulted.clone()
     }
 
-    /// Fault-free load of pool image `idx` followed by the full +-40 s sweep (once per table).
-    pub fn sweep_image(&mut self, idx: usize) -> Option<Violation> {
-        {
-            let mut w = self.world.borrow_mut();
-            w.install(idx);
-            w.deny = None;
-            w.armed = None;
-        }
-        let path = self.path();
-        let ctx = self.ctx.clone();
-        let r = catch_unwind(AssertUnwindSafe(|| LeapSecondsFile::from_path(&path)));
-        let v = |oracle: &str, m: String| {
-            Some(Violation {
-                oracle: oracle.into(),
-                op_index: 0,
-                message: format!("[fault-free sweep of image {}] {m}", ctx.images[idx].name),
-            })
-        };
-        let p = match r {
-            Ok(Ok(p)) => p,
-            Ok(Err(e)) => return v("O2", format!("fault-free load failed: {e}")),
-            Err(_) => return v("O2", format!("fault-free load panicked: {}", take_last_panic())),
-        };
-        if let Err(m) = oracle::o1_table_equals(&p, &ctx.images[idx].table) {
-            return v("O1", m);
-        }
-        let mut stats = ProbeStats::default();
-        let r = catch_unwind(AssertUnwindSafe(|| {
-            oracle::full_sweep(
-                &p,
-                &ctx.images[idx].table,
-                &ctx.shipped_table,
-                &ctx.fixed_probes,
-                &mut stats,
-            )
-        }));
-        self.probe_stats.model_compared += stats.model_compared;
-        self.probe_stats.differential_compared += stats.differential_compared;
-        match r {
-            Ok(Ok(())) => None,
-            Ok(Err(m)) => v("O4", m),
-            Err(_) => v("O4", format!("lookup panicked: {}", take_last_panic())),
-        }
-    }
-
-    /// Fault-free load of pool image `idx` and O1 only (its table was already swept).
-    pub fn sweep_load_only(&mut self, idx: usize) -> Option<Violation> {
-        {
-            let mut w = self.world.borrow_mut();
-            w.install(idx);
-            w.deny = None;
-            w.armed = None;
-        }
-        let path = self.path();
-        let ctx = self.ctx.clone();
-        let r = catch_unwind(AssertUnwindSafe(|| LeapSecondsFile::from_path(&path)));
-        let v = |oracle: &str, m: String| {
-            Some(Violation {
-                oracle: oracle.into(),
-                op_index: 0,
-                message: format!("[fault-free load of image {}] {m}", ctx.images[idx].name),
-            })
-        };
-        match r {
-            Ok(Ok(p)) => match oracle::o1_table_equals(&p, &ctx.images[idx].table) {
-                Ok(()) => None,
-                Err(m) => v("O1", m),
-            },
-            Ok(Err(e)) => v("O2", format!("fault-free load failed: {e}")),
-            Err(_) => v("O2", format!("fault-free load panicked: {}", take_last_panic())),
-        }
-    }
-
     pub fn execute(&mut self, sc: &Scenario) -> RunResult {
         let ctx = self.ctx.clone();
         let mut trace: Vec<String> = Vec::new();
+        self.begin_run(sc.seed);
         {
             let mut w = self.world.borrow_mut();
             w.log = Fnv::default();
@@ -1024,7 +976,7 @@ impl Sim {
                         ));
                     }
                 }
-                Op::Query { client, probe_seed } => {
+                Op::Query { client, probe_seed, full } => {
                     let c = *client % clients.len();
                     self.world.borrow_mut().ctr.inc(C::queries);
                     if let Some(h) = &clients[c] {
@@ -1032,15 +984,25 @@ impl Sim {
                         let mut log = Fnv::default();
                         let table = &ctx.images[h.image].table;
                         let r = catch_unwind(AssertUnwindSafe(|| {
-                            oracle::run_query(
-                                &h.provider,
-                                table,
-                                &ctx.shipped_table,
-                                *probe_seed,
-                                &ctx.fixed_probes,
-                                &mut stats,
-                                &mut log,
-                            )
+                            if *full {
+                                oracle::full_sweep(
+                                    &h.provider,
+                                    table,
+                                    &ctx.shipped_table,
+                                    &ctx.fixed_probes,
+                                    &mut stats,
+                                )
+                            } else {
+                                oracle::run_query(
+                                    &h.provider,
+                                    table,
+                                    &ctx.shipped_table,
+                                    *probe_seed,
+                                    &ctx.fixed_probes,
+                                    &mut stats,
+                                    &mut log,
+                                )
+                            }
                         }));
                         let mut w = self.world.borrow_mut();
                         w.ctr.inc(C::queries_with_provider);
